@@ -46,6 +46,7 @@ type RuleRun struct {
 	Rule *Rule
 	rep  *Report
 	obs  []Obligation
+	seen map[string]int
 }
 
 type Report struct {
@@ -126,12 +127,28 @@ func (rep *Report) RunRule(w *World, rule *Rule) {
 
 // Oblige records one obligation.
 func (rr *RuleRun) Oblige(fn string, construct string, pos string, ok bool, detail string) {
+	construct = rr.uniqueConstruct(fn, construct)
 	rr.obs = append(rr.obs, Obligation{Rule: rr.Rule.ID, Function: fn, Construct: construct, Pos: pos, OK: ok, Detail: detail, Nontrivial: true})
 }
 
 // ObligeTrivial records an obligation whose discharge needed no guard/origin/lock fact.
 func (rr *RuleRun) ObligeTrivial(fn string, construct string, pos string, ok bool, detail string) {
+	construct = rr.uniqueConstruct(fn, construct)
 	rr.obs = append(rr.obs, Obligation{Rule: rr.Rule.ID, Function: fn, Construct: construct, Pos: pos, OK: ok, Detail: detail, Nontrivial: false})
+}
+
+// uniqueConstruct disambiguates repeated (function, construct) pairs within one rule by an
+// occurrence ordinal (instruction order), so that two sites of the same shape are two obligations.
+func (rr *RuleRun) uniqueConstruct(fn, construct string) string {
+	if rr.seen == nil {
+		rr.seen = map[string]int{}
+	}
+	k := fn + "|" + construct
+	rr.seen[k]++
+	if n := rr.seen[k]; n > 1 {
+		return fmt.Sprintf("%s #%d", construct, n)
+	}
+	return construct
 }
 
 func (rr *RuleRun) At(w *World, ins ssa.Instruction, construct string, ok bool, detail string) {
